@@ -58,7 +58,7 @@ theorem lower_mem (st : St) (m : MemOp R) (fr : Frame R) (g : G μ)
 is the five instructions `mov; mov; mul; add; add` -/
 example : VnWF {} ∧ isUser (some (R.user "b")) ∧
     (lowerAddr {} { ty := .i32, disp := -8, base := some (.user "b"), index := some (.user "i"), scale := 4 }).1.length = 5 := by
-  refine ⟨VnWF_init 0 false, trivial, by decide⟩
+  refine ⟨VnWF_init 0 {}, trivial, by decide⟩
 
 /-- outside MIR.md's domain (`scale` should be 1, 2, 4 or 8): with `scale = 0`, an index and a
 non-zero displacement the emitted code computes `disp + base + index`, with displacement 0 it
@@ -86,7 +86,8 @@ theorem algebraic_shortcuts_step (a : AOp) (c : Int) (h : aopShortcut a = some c
 
 /-- the table in the current mir.c is the one the theorems are about (plus `MULO`/`MULOS`) -/
 theorem algebraic_shortcuts_table :
-    (∀ r ∈ Gen.C04.shortcutRows, r ∈ shortcutRowsModel) ∧ (∀ r ∈ shortcutRowsModel, r ∈ Gen.C04.shortcutRows) :=
+    (∀ r ∈ Gen.C04.shortcutRows, r ∈ shortcutRowsModel Gen.C04.muloRow) ∧
+    (∀ r ∈ shortcutRowsModel Gen.C04.muloRow, r ∈ Gen.C04.shortcutRows) :=
   ⟨gen_shortcut_rows.2.1, gen_shortcut_rows.2.2⟩
 
 example : aopShortcut .div = some 1 ∧ ("DIVS", (1 : Int)) ∈ Gen.C04.shortcutRows := by decide
